@@ -225,6 +225,11 @@ class GaussHardCut(GaussU):
         lo, hi = self.bounds["x0"]
         return math.log((ndtr(hi) - ndtr(0.5)) * (ndtr(2.0) - ndtr(-2.0))) - self._logvol
 
+    @property
+    def zero_likelihood_prior_fraction(self):
+        lo, hi = self.bounds["x0"]
+        return 1.0 - (hi - 0.5) / (hi - lo) * 4.0 / (self.bounds["x1"][1] - self.bounds["x1"][0])
+
     def posterior_moments(self):
         from scipy.stats import truncnorm
 
